@@ -36,6 +36,15 @@ L12V == {<<"nmt", 1>>, <<"nmt", 128>>, <<"wr", "a", <<1>>>>, <<"wr", "a", <<7>>>
         \cup {<<k, "W", v>> : k \in {"wr", "api"}, v \in VW} \cup {<<k, "L", v>> : k \in {"wr", "api"}, v \in VL}
         \cup {<<"rpdo", 517, v \o <<0, 0, 0, 0>>>> : v \in {<<0, 0, 0, 0>>, <<0, 0, 1, 0>>, <<1, 0, 0, 0>>}}
 P12V == << <<"nmt", 1>>, <<"wr", "L", <<0, 0, 0, 0>>>>, <<"api", "L", <<0, 0, 1, 0>>>>, <<"api", "L", <<0, 0, 1, 0>>>>, <<"wr", "W", <<0, 1>>>>, <<"wr", "W", <<0, 1>>>>, <<"api", "W", <<0, 0>>>> >>
+\* ---- C10P: heartbeat producer (3 ticks) next to an event TPDO with inhibit (2 ticks) and event timer (3 ticks): timer ids are
+\*      recycled, so every PDO path that stops or re-arms a timer is run against a heartbeat that is started, stopped and re-timed
+TC10P == << TC(FALSE, 389, 254, 20, 3, 1, <<M("a", 8), Z4, Z4, Z4>>) >>
+S10P == <<128, FALSE, 0, 3>>
+L10P == {<<"tick">>, <<"trig", 1>>, <<"wr", "a", <<7>>>>, <<"wr", "a", <<1>>>>, <<"nmt", 1>>, <<"nmt", 128>>, <<"nmt", 2>>, <<"reset", 130>>,
+         <<"cfg", "cid", TRUE, 1, <<133, 1, 0, 192>>>>, <<"cfg", "cid", TRUE, 1, <<133, 1, 0, 64>>>>, <<"cfg", "evt", TRUE, 1, 0>>, <<"cfg", "evt", TRUE, 1, 3>>,
+         <<"hbwr", 0>>, <<"hbwr", 2>>, <<"hbwr", 3>>}
+P10P == << <<"tick">>, <<"tick">>, <<"tick">>, <<"pool">>, <<"nmt", 128>>, <<"nmt", 1>>, <<"tick">>, <<"tick">>, <<"tick">>, <<"tick">>, <<"cfg", "evt", TRUE, 1, 3>>,
+           <<"cfg", "cid", TRUE, 1, <<133, 1, 0, 192>>>>, <<"tick">>, <<"tick">>, <<"tick">>, <<"tick">>, <<"pool">>, <<"hbwr", 2>>, <<"tick">>, <<"tick">>, <<"pool">> >>
 \* ---- C20 (PDO / SYNC part): SYNC producer on (2 ms), event TPDO with timers, synchronous RPDO; resets in every state
 TC20 == << TC(FALSE, 389, 254, 20, 3, 1, <<M("a", 8), Z4, Z4, Z4>>) >>
 RC20 == << RC(FALSE, 517, 1, 1, <<M("b", 8), Z4, Z4, Z4>>) >>
